@@ -92,6 +92,15 @@ CHECKS["C04"] = {
     "design_ref": "§7 C04",
 }
 
+CHECKS["C18"] = {
+    "category": "model_checking",
+    "technique": "TLA+ AddrBook.tla checked by TLC (Monotone, Authentic, RejectedBatchNoChange, Convergence); every enumerated transition replayed on the real ValidatorAddrsWatch with real signatures (T2)",
+    "text": "All batches of <= 2 announcements over member/outsider keys, versions, timestamps and forgery, from every reachable book: result and resulting "
+            "book of the real update() must equal the specification's; stored entries must verify under their validator's key.",
+    "note": "2 committee keys, versions/timestamps 0..1; BLS soundness assumed; batches of 3+ entries not enumerated.",
+    "design_ref": "§7 C18",
+}
+
 NOT_YET = "check not built yet (construction in progress; see DESIGN.md §11 build order)"
 NA_REASONS = {}
 
